@@ -256,8 +256,11 @@ func (s *fnStash) clone(c *cloner) stasher {
 	}
 	*out = fnStash{
 		dclStash:            *dclStash,
-		arguments:           c.object(s.arguments),
 		indexOfArgumentName: index,
+	}
+	if s.arguments != nil {
+		// Not set when a parameter is named "arguments".
+		out.arguments = c.object(s.arguments)
 	}
 	return out
 }
